@@ -5,6 +5,16 @@ from common import Rng
 
 import pytrs
 
+
+def safely(rep, what, f, *a):
+    """run one oracle check; an exception escaping the library is itself a failing input for the observables"""
+    try:
+        return f(rep, *a)
+    except Exception as e:  # noqa
+        rep.violation('failing-input', {'check': what, 'args': [str(x)[:300] for x in a], 'why': f'raised {type(e).__name__}: {e}'})
+        return None
+
+
 RULE = ("abstract descriptions (1-3 Twp/Rge groups x 1-3 section groups: single / 'and' list / 'through' range) x description "
         "blocks from an open vocabulary x four layouts x independent renderings (Twp/Rge spelling, section word, "
         "connectors, separators); non-trivial = at least two tracts expected; distinct by rendered text")
@@ -42,7 +52,7 @@ def run(ctx):
     for i in range(ctx.budget(450, 30000)):
         r = rng.fork(i)
         text, lay, groups = descs.structured(r)
-        n = check(rep, text, lay, groups)
+        n = safely(rep, 'layout', check, text, lay, groups) or 0
         rep.count()
         if n >= 2:
             rep.nontrivial(text)
